@@ -2,7 +2,7 @@ from vlib import Harness
 
 # one configuration per shard (see harness/c17_splay.cpp / c17_lru.cpp main): the number of shards equals the number of
 # configurations of the tier, so every configuration gets its own process (the harness also copes with fewer shards).
-SPLAY_CONFIGS = {"quick": 7, "thorough": 9}
+SPLAY_CONFIGS = {"quick": 10, "thorough": 9}
 LRU_CONFIGS = {"quick": 4, "thorough": 4}
 
 
@@ -21,7 +21,7 @@ def plan(tier):
                 "exception is a transition that must leave the state unchanged); states de-duplicated on the internal list_ (keys, values, "
                 "order), the map_ index (key -> list position) and its bucket count. "
                 "SplayTree quick: set flavour over keys {0..5} x {less/int, greater/int, less/Tracked}, multiset flavour over keys {0,1,2} with "
-                "multiplicity <= 3 x {less/int, greater/int, greater/Tracked}. Thorough: set less/int over {0..8}, greater/int and less/Tracked "
+                "multiplicity <= 3 x {less/int, greater/int, greater/Tracked} and multiplicity <= 5 with at most 7 nodes (less/int). Thorough: set less/int over {0..8}, greater/int and less/Tracked "
                 "over {0..7}; multiset less/int over {0,1,2} with multiplicity <= 5 and <= 12 nodes, greater/int and greater/Tracked with "
                 "multiplicity <= 4, less/int over {0..3} with multiplicity <= 2 and over {0,1} with multiplicity <= 5. Both tiers: an unguarded "
                 "2-key set configuration for ASan confirmation of dangling-node states. Ops insert, exists, find, erase(key), erase(node from "
